@@ -5,6 +5,11 @@ of C05; the rule names carry the property they serve:
   C06.FastRetxEnters  C06.NoSpuriousEntry  C06.NoEntryDuringRto  C06.RecoveryPoint  C06.ExitsOnFullAck
   C06.OnlyLostRetransmitted
   plus Recov.ObsAgrees (every observable equals the specification's) and Recov.NoPanic.
+C06.NoEntryDuringRto has a state clause (the ignore period after a timeout INSIDE an episode, RFC 6675 5.1) and a wire
+clause (no pass of the recovery branch retransmits anything while the dispatcher is in RTO mode).  A timeout OUTSIDE
+an episode leaves the state machine as it is (no ignore period, count kept, a later episode takes the rewound
+last_sent_seq_nr as its point): RFC 6582 4 would keep a timeout recovery there; what differs is congestion state, which
+C06 does not constrain - counted as observations (OBSERVATIONS below, info["observations"]), never violations.
 
   1. TLC on MCRecovery (spec/Recovery.tla): every call sequence (packet / timer / send / enqueue / recovery pass) to
      6 (quick) / 8 (thorough) effective calls over small alphabets, from roots with 0..6 segments queued around the
@@ -39,10 +44,13 @@ RULES = ["C06.FastRetxEnters", "C06.NoSpuriousEntry", "C06.NoEntryDuringRto", "C
 # branches of the rules that a run must have exercised to count (vacuity guard)
 MARKERS = ["C06.FastRetxEnters.dupacks", "C06.FastRetxEnters.sack", "C06.FastRetxEnters.baseExit",
            "C06.FastRetxEnters.baseIdle", "C06.FastRetxEnters.retransmits", "C06.NoSpuriousEntry.idleRepeat",
-           "C06.NoSpuriousEntry.below", "C06.NoEntryDuringRto.evidence", "C06.ExitsOnFullAck.full",
+           "C06.NoSpuriousEntry.below", "C06.NoEntryDuringRto.evidence", "C06.NoEntryDuringRto.gated",
+           "C06.ExitsOnFullAck.full",
            "C06.ExitsOnFullAck.partial", "C06.OnlyLostRetransmitted.some", "C06.OnlyLostRetransmitted.skipsDelivered"]
 # observations (deviations from the strictest texts that the contract tolerates): counted, never required / violated
-OBSERVATIONS = ["C06.NoSpuriousEntry.rawBitsOnly", "C06.ExitsOnFullAck.unaPastPoint"]
+OBSERVATIONS = ["C06.NoSpuriousEntry.rawBitsOnly", "C06.ExitsOnFullAck.unaPastPoint",
+                "C06.NoEntryDuringRto.entryAfterOpenTimeout", "C06.NoEntryDuringRto.pointNotRaised",
+                "C06.RecoveryPoint.rewound"]
 ALL_PREFIXES = ["C06.", "Recov."]
 OPNAME = {"n": "new", "q": "enqueue", "d": "send", "a": "ack", "t": "rto", "x": "retx"}
 SPEC_FILES = ("Recovery.tla", "MCRecovery.tla", "MCRecovery.cfg", "RecoveryTrace.tla", "RecoveryTrace.cfg", "SeqArith.tla")
@@ -333,7 +341,7 @@ def _compute(tier, seed):
     judged = 0
     picked = []
     if differing:
-        # one group per (kind of call, mode and origin of the specification's state before it, expected and actual
+        # one group per (kind of call, mode and RTO mode of the specification's state before it, expected and actual
         # begin / end of an episode): the shortest histories of every group
         got = {}
         for k in range(nsh):
@@ -346,7 +354,7 @@ def _compute(tier, seed):
         for i in differing:
             frm = edges[i - nroot][0] if i >= nroot else 0
             exp = answer[i][0].split(",")[2:4] if answer[i][0] else []
-            groups.setdefault((cases[i][1][2], keys[frm][7], keys[frm][9], tuple(exp), got.get(i, "")), []).append(i)
+            groups.setdefault((cases[i][1][2], keys[frm][7], keys[frm][6], tuple(exp), got.get(i, "")), []).append(i)
         for g in sorted(groups, key=str):
             picked += sorted(groups[g], key=lambda i: (len(chain_of(cases, i)), i))[:3]
         picked = sorted(picked, key=lambda i: (len(chain_of(cases, i)), i))[:240]
@@ -491,6 +499,12 @@ def run(tier, seed):
         "one packet per poll: last_sent_seq_nr catches up with snd_una - 1 right after every packet (the dispatcher does "
         "it after the batch)",
         "no MTU probes, no FIN; sequence numbers compare by modular distance (C09), the antipode is not exercised",
+        "a retransmission timeout outside an episode does not start an ignore period in the state machine (RFC 6675 5.1 "
+        "read alone; RFC 6582 4 would): episodes that begin before the cumulative ACK reaches the highest sequence number "
+        "transmitted at that timeout, their rewound recovery point, and ignore periods whose point a further timeout did "
+        "not raise are COUNTED (notes: recovery_machine.observations) and tolerated - on the wire the dispatcher's RTO "
+        "mode keeps fast retransmissions off while it lasts (C06.NoEntryDuringRto, wire clause); the cost is congestion "
+        "state (on_enter_recovery right after on_retransmission_timeout, ssthresh of two segments after the next ACK)",
         "the evidence contract is a band: entering is obligatory on the strictest reading of the texts (RFC 5681 "
         "duplicate, >= 3 queued transmitted segments marked by the packet's bitmap) and permitted on the loosest (any "
         "3 non-advancing or SACK-carrying packets, >= 3 bits, >= 3 delivered segments); Recov.ObsAgrees pins the "
